@@ -1,6 +1,6 @@
 """Per-property verification plans: which models TLC explores, which traces are recorded from the
 real code and validated, which TLC-generated vectors are replayed. See DESIGN.md section 6."""
-from vlib import model_check, record_and_validate
+from vlib import model_check, record_and_validate, gen_and_replay
 
 
 def bdd_jobs(ctx, mode, n, segments, length, nmax):
@@ -28,10 +28,85 @@ def C01(ctx):
 def C02(ctx):
     ctx.assumptions += [
         "canonicity is judged on truth tables recomputed by TLC from raw node dumps",
-        "table growth is forced by the rsdd_verif capacity hook (initial capacity 1..16)",
+        "table growth is forced by the rsdd_verif capacity hook (initial capacity 1..16); the real "
+        "BackedRobinhoodTable<u64> is driven directly through the hook's re-export",
     ]
+    # design level: the implementation-shaped unique table refines the abstract set with identities
+    model_check(ctx, "RobinHood", "MC_RobinHood.cfg", "RobinHood (as repaired) refines SetTable: 5 keys, 4 hashes, cap 2->8", workers=6)
+    model_check(ctx, "RobinHood", "MC_RobinHood_ascoded.cfg", "regression: grow() as originally coded loses the robin-hood invariant",
+                workers=2, expect_violation=True)
+    if not ctx.quick:
+        model_check(ctx, "RobinHood", "MC_RobinHood_big.cfg", "6 keys, cap 2->16", workers=16, timeout=3000, xmx="24g")
+    # spec -> impl: every behaviour of the bounded model replayed into the real table
+    gen_and_replay(ctx, "GenTable", "GenTable.cfg" if ctx.quick else "GenTable_big.cfg", "table",
+                   "all get_or_insert sequences of the bounded RobinHood model")
+    # impl -> spec: random table histories with colliding hashes and tiny capacities
+    n = 4 if ctx.quick else 24
+    record_and_validate(ctx, [("table_%d" % i, ["record", "table", "--seed", ctx.seed * 1000 + i, "--segments", 25, "--len", 60])
+                              for i in range(n)], "TraceTable", "TraceTable.cfg")
+    # builder level: random programs with tiny unique tables
     if ctx.quick:
         jobs = bdd_jobs(ctx, "c02", 8, 4, 200, 5)
     else:
         jobs = bdd_jobs(ctx, "c02", 48, 5, 300, 5)
     record_and_validate(ctx, jobs, "TraceBdd", "TraceBdd_C02.cfg")
+
+
+def C16(ctx):
+    ctx.assumptions += [
+        "domain: the hash passed to the cache is a function of the key (different keys may collide)",
+        "cache eviction and growth are forced by the rsdd_verif initial-capacity hook (2^0 .. 2^4 slots)",
+    ]
+    model_check(ctx, "Lru", "MC_Lru.cfg", "Lru (as coded) refines LossyMap: 3 keys, 4 hashes, cap 2^0->2^2", workers=6)
+    gen_and_replay(ctx, "GenLru", "GenLru.cfg" if ctx.quick else "GenLru_big.cfg", "lru",
+                   "all insert/get sequences of the bounded Lru model")
+    n = 4 if ctx.quick else 24
+    record_and_validate(ctx, [("lru_%d" % i, ["record", "lru", "--seed", ctx.seed * 1000 + i, "--segments", 30, "--len", 80])
+                              for i in range(n)], "TraceLru", "TraceLru.cfg")
+    # builder level: the same random programs under every cache configuration; every trace must be a
+    # behaviour of BddApi with canonicity enforced, hence all caches return the same canonical diagrams
+    if ctx.quick:
+        jobs = bdd_jobs(ctx, "c16", 8, 4, 200, 5)
+    else:
+        jobs = bdd_jobs(ctx, "c16", 48, 5, 300, 5)
+    record_and_validate(ctx, jobs, "TraceBdd", "TraceBdd_C16.cfg")
+
+
+def _bdd_family(ctx, mode, cfg, nq=6, nt=40, segs=4, length=160, nmax=5):
+    if ctx.quick:
+        jobs = bdd_jobs(ctx, mode, nq, segs, length, nmax)
+    else:
+        jobs = bdd_jobs(ctx, mode, nt, segs + 1, length + 80, nmax)
+    record_and_validate(ctx, jobs, "TraceBdd", cfg)
+
+
+def C05(ctx):
+    ctx.assumptions += ["CNF / expression / plan semantics = EvalCnf / EvalExpr of spec/BoolFn.tla evaluated by TLC",
+                        "plans derived from DTree::from_cnf are logged as trees: TLC evaluates the plan itself"]
+    _bdd_family(ctx, "c05", "TraceBdd_C05.cfg")
+
+
+def C07(ctx):
+    ctx.assumptions += ["weights are dyadic rationals k/8 or small integers: every f64 operation of the code is exact",
+                        "RationalSemiring has no public constructor: only naturals built from one/zero/+/* are reachable"]
+    _bdd_family(ctx, "c07", "TraceBdd_C07.cfg")
+
+
+def C08(ctx):
+    _bdd_family(ctx, "c08", "TraceBdd_C08.cfg")
+
+
+def C10(ctx):
+    _bdd_family(ctx, "c10", "TraceBdd_C10.cfg")
+
+
+def C11(ctx):
+    ctx.assumptions += ["a collision of two different functions under a 32/64-bit prime would be reported as a violation; "
+                        "probability < 1e-9 per run for the 64-bit prime, seeds are fixed"]
+    _bdd_family(ctx, "c11", "TraceBdd_C11.cfg")
+
+
+def C12(ctx):
+    ctx.assumptions += ["domain as stated in the property: probabilities k/8 summing to one off the query variables; MEU: "
+                        "decision variables weigh (1,0), rewards >= 0 on the last variables of the order"]
+    _bdd_family(ctx, "c12", "TraceBdd_C12.cfg")
